@@ -675,6 +675,10 @@ func symConv(i *interpreter, t_dst, t_src types.Type, x *smt.Term) value {
 
 // eqTerm returns the comparison x == y at (static or dynamic) type t as a term.
 func eqTerm(i *interpreter, t types.Type, x, y value) *smt.Term {
+	if isLazy(x) || isLazy(y) {
+		x = i.forceIface(i.curFrame(), x)
+		y = i.forceIface(i.curFrame(), y)
+	}
 	switch x := x.(type) {
 	case *smt.Term:
 		return smt.Eq(x, toTerm(y))
